@@ -42,7 +42,7 @@ def regen(snap):
 
 
 def gen_script(rng, thorough):
-    bits = rng.choice([1, 1, 2, 3])
+    bits = rng.choice([1, 1, 2, 3, 4, 6] if thorough else [1, 1, 2, 3])
     nkeys = rng.randint(1, 4)
     keys = []
     base = rng.getrandbits(bits)
@@ -52,7 +52,7 @@ def gen_script(rng, thorough):
         else:
             keys.append((rng.getrandbits(24) | 1, rng.getrandbits(32) | 1))
     keys = list(dict.fromkeys(keys))
-    nthreads = rng.randint(2, 6)
+    nthreads = rng.randint(2, 8 if thorough else 6)
     ver = [0]
 
     def value(ki):
@@ -165,6 +165,8 @@ def run(ck):
                        "the struct assignment table_[i] = s is one model step touching the whole slot; the value is "
                        "copied OUT word by word"]
     harness = vv.build_harness("h_conc", san="tsan")
+    # thorough: the same scripts also under AddressSanitizer + UBSan (heap misuse of the values handed out)
+    harness_asan = vv.build_harness("h_conc", san="asan") if ck.thorough else None
     model = vv.ocaml_model("Conc")
 
     rng = ck.rng
@@ -206,6 +208,16 @@ def run(ck):
             if bad:
                 ck.add_violation("integrity", bad, {"case": line, "impl": out})
                 break
+            if harness_asan is not None and rep == 0:
+                rca, outa, erra = run_case(harness_asan, line)
+                hist["asan_runs"] = hist.get("asan_runs", 0) + 1
+                bada = None if rca == 0 else "AddressSanitizer/UBSan build: exit %d" % rca
+                bada = bada or oracle(line, outa)
+                if bada:
+                    ck.add_violation("asan:" + ("integrity" if rca == 0 else "report"), bada,
+                                     {"case": line, "impl": outa, "exit": rca, "report": erra[:3500],
+                                      "how": "h_conc built with -fsanitize=address,undefined on this line"})
+                    break
             if line[0] == "S":
                 if interleaved(out):
                     ck.nontriv(line)
@@ -229,7 +241,7 @@ def run(ck):
     return ck.finish(
         rule="the refuted schedule at call level (reader obtains the result of find, writer overwrites the slot with "
              "1/2/4-component values, reader copies) plus seeded thread scripts: 2..6 threads (readers, writers, "
-             "clearers, mixed) over 1..4 keys that mostly share one slot of a 2^1..2^3 table, values of 1, 2 and 4 "
+             "clearers, savers/loaders, mixed; up to 8 threads and 2^6 slots and a second pass under ASan/UBSan in thorough) over 1..4 keys that mostly share one slot of a 2^1..2^3 table, values of 1, 2 and 4 "
              "components that encode key and version, H3 scheduling points yielding/sleeping with probability 0..0.6; "
              "non-trivial = the trace switches threads at least 4 times and some find hits; distinct = distinct scripts",
         explanation="partial by nature: the proofs are about a sequentially consistent model of the lock protocol; "
